@@ -9,7 +9,7 @@
 From Coq Require Import String.
 From Coq Require Import List NArith ZArith Bool.
 From HS Require Import Base.Prelude Model.Value Model.Escape Model.Version Model.Json Model.ZincDump Model.ZincParse.
-From HS Require Import Proofs.EscapeP Proofs.ZincParseP Proofs.ZincDumpP Proofs.ZincNumP Proofs.ZincDateP Proofs.ZincListP Proofs.ZincGridP.
+From HS Require Import Proofs.EscapeP Proofs.ZincParseP Proofs.ZincDumpP Proofs.ZincNumP Proofs.ZincDateP Proofs.ZincListP Proofs.ZincGridP Proofs.ZincDictP Proofs.ZincMetaP Proofs.ZincNestP.
 Import ListNotations.
 Open Scope N_scope.
 
@@ -70,6 +70,15 @@ Proof.
   intros n names rows rts H1 H2 H3 H4. exists (plain_text names rts). exact (grid_roundtrip n names rows rts H1 H2 H3 H4).
 Qed.
 
+(* ... and in general: with grid and column metadata, over every kind but date-times, with lists, dicts and nested grids
+   to any depth (full_grid_ok), what the writer emits is accepted by the grid rule and by parse_grid and denotes the grid *)
+Theorem C04_grid_conforms_general : forall n mps cols rows rts, full_grid_ok n mps cols rows rts ->
+  (forall f, zdump_grid (S (S (2 * n + f))) V30 (map pkv mps) (map (fun c => (fst c, map pkv (snd c))) cols)
+                        (map (fun cells => combine (map fst cols) cells) rows) = Ok (meta_text mps cols rts)) /\
+  (forall k, p_grid (S (S (2 * n + k))) true (meta_text mps cols rts) = Some (Ok (meta_grid mps cols rows), [])) /\
+  ((2 * n <= length (meta_text mps cols rts))%nat -> zparse_grid (meta_text mps cols rts) = Ok (meta_grid mps cols rows)).
+Proof. exact full_grid_roundtrip. Qed.
+
 Example C04_layout_applies :
   let rows := [[(s_ "a", VStr [34; 10; 44]); (s_ "b", VRef (s_ "r-1") (Some [36; 10]))]; [(s_ "b", VList [VMarker; VUri [96; 10]])]] in
   let cols := [(s_ "a", []); (s_ "b", [(s_ "dis", VStr [10])])] in
@@ -86,6 +95,7 @@ Proof.
 Qed.
 
 Print Assumptions C04_grid_conforms.
+Print Assumptions C04_grid_conforms_general.
 Print Assumptions C04_layout.
 Print Assumptions C04_scalar_clean.
 Print Assumptions C04_header.
